@@ -14,7 +14,7 @@ from vlib import monitors as M
 ID = "C05"
 LEVEL = "exploration"
 TECHNIQUE = "exact decimal grid oracle on every reported index/key list; normalize() monitor"
-RULE = ("lattice start in {0,1,.5,.1,.3,2.25,10,100.7,.05,-1,-.3,-2} x dt in {1,.5,.25,.125,.1,.2,.3,.05,.01} x n steps "
+RULE = ("lattice start in {0,1,.5,.1,.3,2.25,10,100.7,64.1,250.7,2020.3,.05,-1,-.3,-2} x dt in {1,.5,.25,.125,.1,.2,.3,.05,.01} x n steps "
         "(quick: 0..12,15,20,30,45,60; thorough: also 61..400 stepwise); observed at util.timerange (exclusive/inclusive), "
         "run_scenarios index (df/dict/json), Element.plot index, run_step keys, session_results keys (by time / by equation) for a session begun with explicit start and dt and for one begun with defaults (nested and flat step results, session clock after every step), "
         "and 4 float routes to each grid time. distinct_nontrivial = distinct (start,dt) pairs with at least one grid value "
@@ -23,7 +23,7 @@ ASSUMPTIONS = ["stop is on the grid by construction", "labels are compared as fl
 REQUIRED = {"default_session_keys": 100, "timerange_lists": 100, "df_indexes": 100, "session_keys": 100, "routes": 1000, "normalize_calls": 1000}
 BUDGET_S = {"quick": 100, "thorough": 1500}
 
-STARTS = ["0", "1", "0.5", "0.1", "0.3", "2.25", "10", "100.7", "-1", "-0.3", "-2", "0.05"]     # incl. negative starts whose grid passes through 0
+STARTS = ["0", "1", "0.5", "0.1", "0.3", "2.25", "10", "100.7", "-1", "-0.3", "-2", "0.05", "64.1", "250.7", "2020.3"]     # incl. negative starts whose grid passes through 0
 DTS = ["1", "0.5", "0.25", "0.125", "0.1", "0.2", "0.3", "0.05", "0.01"]
 
 
